@@ -366,7 +366,14 @@ def _resume_start(k: Kernel, fn: ast.FunctionDef) -> str:
     stmts = pre + inner[0].orelse + after_inner + top[idx[0] + 1:]
     tr = ExprTr({"checkpoint['iteration']": "label", GS: "k"})
     lets, loc = translate_block(stmts, tr, ["start_iter"])
-    lets = [l for l in lets if l.startswith("let start_iter")]
+    # keep only the lets the result depends on (transitively)
+    need, kept = {loc["start_iter"]}, []
+    for l in reversed(lets):
+        ident, rhs = l[len("let "):].split(" : Int := ", 1)
+        if ident in need:
+            kept.append(l)
+            need |= set(__import__("re").findall(r"[A-Za-z_][A-Za-z_0-9']*", rhs))
+    lets = list(reversed(kept))
     return emit_def(k.name, k.params, lets, loc["start_iter"], "Int")
 
 
